@@ -68,6 +68,16 @@ impl EventAccessTracker
     }
 }
 
+#[cfg(feature = "verif")]
+impl EventAccessTracker
+{
+    /// Returns (number of prepared entries, currently reacting).
+    pub(crate) fn verif_state(&self) -> (usize, bool)
+    {
+        (self.prepared.len(), self.currently_reacting)
+    }
+}
+
 impl Default for EventAccessTracker
 {
     fn default() -> Self
